@@ -307,6 +307,16 @@ class State:
 
     def store(self, lhs, val, op="="):
         lhs = _unwrap(lhs)
+        if getattr(self, "cond_returned", False):
+            # after a return under a data-dependent condition only the function's own temporaries may be written
+            # (they feed the final return value, which carries the indicator of not having returned)
+            l0 = lhs
+            while l0.get("kind") == "ArraySubscriptExpr":
+                l0 = _unwrap(cast.kids(l0)[0])
+            nm0 = l0.get("referencedDecl", {}).get("name") if l0.get("kind") == "DeclRefExpr" else None
+            is_local = nm0 is not None and nm0 not in self.alias and (lhs.get("kind") == "DeclRefExpr" or nm0 in self.local_arrays) and nm0 not in self.pointers
+            if not is_local:
+                raise AnalysisError(f"{self.ex.where}::{self.fname}: a store into '{cast.text(lhs)}' after a return under a data-dependent condition is outside the modelled fragment")
         deref = lhs.get("kind") == "UnaryOperator" and lhs.get("opcode") == "*" and _unwrap(cast.kids(lhs)[0]).get("kind") == "DeclRefExpr" and _unwrap(cast.kids(lhs)[0])["referencedDecl"]["name"] in self.pointers
         if lhs.get("kind") == "DeclRefExpr" or deref:
             nm = lhs["referencedDecl"]["name"] if not deref else "*" + _unwrap(cast.kids(lhs)[0])["referencedDecl"]["name"]
@@ -465,7 +475,20 @@ class State:
                     return True
                 continue
             if k == "ReturnStmt":
-                self.ret = self.expr(ks[0]) if ks else None
+                v_ = self.expr(ks[0]) if ks else None
+                live = getattr(self, "ret_live", sp.Integer(1))
+                if self.guards:
+                    # a return under data-dependent conditions: the value counts with the indicator of those
+                    # conditions (and of not having returned earlier); what follows runs only otherwise
+                    g_ = live * self.guard_factor(0)
+                    if v_ is not None:
+                        self.ret_partial = getattr(self, "ret_partial", sp.Integer(0)) + g_ * v_
+                    self.ret_live = live - g_
+                    self.cond_returned = True
+                    return True
+                if v_ is not None and getattr(self, "cond_returned", False):
+                    v_ = getattr(self, "ret_partial", sp.Integer(0)) + live * v_
+                self.ret = v_
                 return True
             if k == "ForStmt":
                 self.loop(s)
